@@ -382,6 +382,10 @@ class Backend(ABC):
         # All argument values must be strings or numbers
         if not all([isinstance(arg.value, (SigmaString, SigmaNumber)) for arg in args]):
             return False
+        # Case-sensitive strings and timestamp parts have their own expressions that would be lost
+        # in a plain value list.
+        if any([isinstance(arg.value, (SigmaCasedString, SigmaTimestampPart)) for arg in args]):
+            return False
 
         # Check for plain strings if wildcards are not allowed for string expressions.
         if not self.in_expressions_allow_wildcards and any(
